@@ -250,6 +250,19 @@ def run(chk):
                         chk.finding(Finding("R13.3", src, F.name, "xts-key-compare:" + IC.callee,
                                             "cipher call is not dominated by memcmp(k1,k2,%s) != 0 with the equal edge returning ISAL_CRYPTO_ERR_XTS_SAME_KEYS" % n_exp, loc=IC.loc()))
     check_self_tests_fn(chk, mods)
+    # R13.4 continued: the status the gate reads starts as NOT_DONE (shared with C17/P0)
+    import x86
+    import c17
+    allunits, _st = build.build("fips")
+    lib = x86.Library([u for u in allunits if u["src"].startswith("fips/")])
+    st = c17.find_status(lib)
+    if st is None:
+        chk.broke("self_test_status not found")
+    else:
+        ok0, msg0 = c17.initial_state(*st)
+        chk.obligation("R13.4", ok0, key="initial-state", sample={"what": msg0})
+        if not ok0:
+            chk.finding(Finding("R13.4", "fips/asm_self_tests.asm", "asm_check_self_tests_status", "initial-state", msg0, loc="fips/asm_self_tests.asm"))
     chk.floor("approved isal_ entry points", counts["approved"], 50)
     chk.floor("non-approved isal_ entry points", counts["nonapproved"], 19)
     chk.floor("exempt isal_ entry points", counts["exempt"], 3)
